@@ -123,6 +123,13 @@ def gen_values(rng, shape, exact):
 
 
 def gen_oracle(rng, i):
+    if i % 700 == 333:
+        # a large call (> 4M products: internal chunking / fast paths) on an integer wavelength grid, even or uneven
+        n = int(rng.integers(380, 420))
+        dom = 300.0 + (np.arange(n) if rng.integers(2) else np.concatenate([[0], np.cumsum(rng.integers(1, 4, n - 1))]))
+        nsig = int(rng.integers(2800, 3300))
+        return {"filters": gen_values(rng, (4, n), False), "signals": gen_values(rng, (nsig, n), False), "domain": dom,
+                "dkind": "uniform", "cls": "large", "trapz": True, "exact": False, "domain_as_list": False}
     n = int([2, 3, 5, 17, 64, 400][rng.integers(6)]) if rng.integers(3) == 0 else int(rng.integers(2, 60))
     kind, dom = gen_domain(rng, n)
     dom = _fix_domain(kind, dom, n)
